@@ -266,13 +266,13 @@ def _find_cases(rng, tier):
 def cases(rng, tier):
     out = list(_corpus()) if tier != 'search' else []
     out += _find_cases(rng, 'quick' if tier == 'quick' else 'thorough')
-    nrand = dict(quick=2500, thorough=40000, search=9000)[tier]
+    nrand = dict(quick=10000, thorough=200000, search=20000)[tier]
     for _ in range(nrand):
         r = rng.random()
         dtype = rng.choice(DTYPES)
         mode = rng.choice(MODES)
         layout = rng.choice(gen.LAYOUTS)
-        shape = list(gen.small_shape(rng, maxlen=6))
+        shape = list(gen.small_shape(rng, maxlen=7, bias=(1, 2, 3, 4, 5)))
         n = int(np.prod(shape))
         isf = np.dtype(dtype).kind == 'f'
         if r < 0.35:
